@@ -340,6 +340,10 @@ func isMessageReader(p *Program, fn *ssa.Function) bool {
 	if fn == nil {
 		return false
 	}
+	// a closure inside a message reader (loop body of a range-over-func, local helper) is part of it
+	if fn.Parent() != nil {
+		return isMessageReader(p, fn.Parent())
+	}
 	if fn.Name() == "UnmarshalUT0311L0x" || fn.Name() == "MarshalUT0311L0x" {
 		return true
 	}
@@ -419,17 +423,71 @@ func isFieldHelper(p *Program, fn *ssa.Function) bool {
 }
 
 func isBufParam(v ssa.Value) bool {
-	for {
+	for i := 0; i < 8; i++ {
 		switch x := v.(type) {
 		case *ssa.Parameter:
 			_, ok := x.Type().Underlying().(*types.Slice)
 			return ok
 		case *ssa.Slice:
 			v = x.X
+		case *ssa.UnOp:
+			// inside a closure (the body of a range-over-func loop, a local helper): the enclosing function's
+			// parameter, captured by reference
+			if x.Op != token.MUL {
+				return false
+			}
+			o := capturedParam(x.X)
+			if o == nil {
+				return false
+			}
+			v = o
 		default:
 			return false
 		}
 	}
+	return false
+}
+
+// capturedParam: addr is a free variable bound to the spill slot of a parameter of the enclosing function
+// (which is never reassigned): returns that parameter.
+func capturedParam(addr ssa.Value) ssa.Value {
+	fv, ok := addr.(*ssa.FreeVar)
+	if !ok || fv.Parent() == nil || fv.Parent().Parent() == nil {
+		return nil
+	}
+	fn := fv.Parent()
+	idx := -1
+	for i, f := range fn.FreeVars {
+		if f == fv {
+			idx = i
+		}
+	}
+	for _, mc := range closuresOf(fn.Parent()) {
+		if mc.Fn != ssa.Value(fn) || idx < 0 || idx >= len(mc.Bindings) {
+			continue
+		}
+		switch b := mc.Bindings[idx].(type) {
+		case *ssa.Alloc:
+			var stored ssa.Value
+			n := 0
+			if b.Referrers() != nil {
+				for _, ref := range *b.Referrers() {
+					if st, ok := ref.(*ssa.Store); ok && st.Addr == ssa.Value(b) {
+						stored = st.Val
+						n++
+					}
+				}
+			}
+			if n == 1 {
+				if prm, ok := stored.(*ssa.Parameter); ok {
+					return prm
+				}
+			}
+		case *ssa.FreeVar:
+			return capturedParam(b)
+		}
+	}
+	return nil
 }
 
 // isPlainBufParam: (a slice of) a parameter of the unnamed type []byte.
@@ -479,7 +537,8 @@ func RulePanic(r *Report, p *Program, tier string, wireTypes map[string]bool) {
 		if pk == nil || !strings.HasPrefix(pk.Pkg.Path(), modPath) {
 			continue
 		}
-		if fn.Synthetic != "" && !strings.Contains(fn.Synthetic, "instantiation") {
+		// the body of a range-over-func loop is compiled into a synthetic yield closure: it is source code
+		if fn.Synthetic != "" && !strings.Contains(fn.Synthetic, "instantiation") && !strings.Contains(fn.Synthetic, "range-over-func") {
 			continue
 		}
 		if fn.Origin() != nil {
@@ -616,9 +675,17 @@ func classifyPanic(p *Program, fn *ssa.Function, x *ssa.Panic) panicSite {
 	s := panicSite{fn: fn, instr: x, kind: "panic", rule: "P4"}
 	name := fn.Name()
 	switch {
+	case isRangeFuncPanic(x):
+		if ok, why := moduleIteratorsKeepProtocol(p); ok {
+			s.ok, s.why = true, "range-over-func protocol check inserted by the compiler: every iterator of the module calls yield only while all earlier calls returned true, keeps no copy of it and recovers nothing"
+		} else {
+			s.detail = "range-over-func protocol check can fire: iterator " + why
+		}
+	case userLockMethod(p, fn) == "Unlock":
+		s.ok, s.why = true, "unlock-of-unlocked check of a hand-written one-slot lock: every Unlock follows a Lock of the same call (rule T3: lock taken, released by a deferred unlock)"
 	case strings.HasPrefix(name, "Must"):
 		s.ok, s.why = true, "documented Must* helper (panics by contract on its own argument)"
-	case isFieldWalker(fn):
+	case isFieldWalker(fn) || (fn.Parent() != nil && isFieldWalker(fn.Parent())):
 		s.ok, s.why = true, "codec default for unsupported kinds: excluded for every declared layout by rule L2"
 	case p.initOnly(fn) && pkgOf(fn) != nil && p.initStateOf(pkgOf(fn)).ok:
 		s.ok, s.why = true, "runs only during package initialisation, which was evaluated: its single path returns without reaching this panic"
@@ -1088,7 +1155,9 @@ func nonNilDominates(blk *ssa.BasicBlock, v ssa.Value) bool {
 		if bo.Op == token.NEQ {
 			want = 0
 		}
-		if dominates(d.Succs[want], child) && !dominates(d.Succs[1-want], child) {
+		// the block is reached only through the non-nil edge: that successor dominates it and is entered by this
+		// edge alone (the other successor may be a loop header that dominates everything - `continue`)
+		if dominates(d.Succs[want], child) && (len(d.Succs[want].Preds) == 1 || !dominates(d.Succs[1-want], child)) && d.Succs[0] != d.Succs[1] {
 			return true
 		}
 	}
